@@ -171,6 +171,7 @@ func main() {
 	replay := flag.String("replay", "", "replay file (JSON) for mode=replay / corpus file")
 	scope := flag.Int("scope", 0, "scope parameter for exhaustive modes")
 	flag.Parse()
+	defer startProfile()()
 	rng := rand.New(rand.NewSource(*seed))
 	o := NewOut(*out, *comp, *seed)
 	cases := 0
